@@ -73,6 +73,16 @@ IP::IP(address_type ip_dst, address_type ip_src) {
     this->src_addr(ip_src); 
 }
 
+// Only END (0) and NOOP (1) are single octet options: the whole type octet counts, not
+// just the number field (RFC 791, 3.1). Every other option carries a length octet.
+static bool option_has_length(uint8_t option_type) {
+    return option_type > IP::NOOP;
+}
+
+static uint8_t option_type_octet(const IP::option_identifier& id) {
+    return static_cast<uint8_t>((id.copied << 7) | (id.op_class << 5) | id.number);
+}
+
 IP::IP(const uint8_t* buffer, uint32_t total_sz) {
     InputMemoryStream stream(buffer, total_sz);
     stream.read(header_);
@@ -86,8 +96,9 @@ IP::IP(const uint8_t* buffer, uint32_t total_sz) {
     
     // While the end of the options is not reached read an option
     while (stream.pointer() < options_end) {
-        option_identifier opt_type = (option_identifier)stream.read<uint8_t>();
-        if (opt_type.number > NOOP) {
+        const uint8_t raw_type = stream.read<uint8_t>();
+        option_identifier opt_type = (option_identifier)raw_type;
+        if (option_has_length(raw_type)) {
             // Multibyte options with length as second byte
             const uint32_t option_size = stream.read<uint8_t>();
             if (TINS_UNLIKELY(option_size < (sizeof(uint8_t) << 1))) {
@@ -324,7 +335,7 @@ uint32_t IP::calculate_options_size() const {
         options_size += sizeof(uint8_t);
         const option_identifier option_id = iter->option();
         // Only add length field and data size for non [NOOP, EOL] options
-        if (option_id.op_class != CONTROL || option_id.number > NOOP) {
+        if (option_has_length(option_type_octet(option_id))) {
             options_size += sizeof(uint8_t) + iter->data_size();
         }
     }
@@ -361,7 +372,7 @@ IP::options_type::iterator IP::search_option_iterator(option_identifier id) {
 void IP::write_option(const option& opt, OutputMemoryStream& stream) {
     stream.write(opt.option());
     // Check what we wrote. We'll do this for any option != [END, NOOP]
-    if (*(stream.pointer() - 1) > NOOP) {
+    if (option_has_length(*(stream.pointer() - 1))) {
         uint8_t length = opt.length_field();
         if (opt.data_size() == opt.length_field()) {
             length += 2;
